@@ -1,13 +1,22 @@
 #!/bin/sh
-# Build the verification framework from files on disk only (offline).
+# Build the verification framework from files on disk only (offline): extractors, Gen files,
+# harness binaries, the Lean library (all theorems) and one driver executable per stream.
 set -e
 cd "$(dirname "$0")"
 export GOFLAGS=-mod=mod GOPROXY=off GOSUMDB=off GOTOOLCHAIN=local CGO_ENABLED=0
 REPO=${VERIF_REPO:-/repo}
 mkdir -p bin work evidence replay lean/VaxisModel/Gen
-(cd extract && go build -o ../bin/extract .)
-./bin/extract "$REPO" lean/VaxisModel/Gen
+python3 tools/mkroots.py
+for d in extract/cmd/*/; do
+  x=$(basename "$d")
+  (cd extract && go build -o ../bin/extract-"$x" ./cmd/"$x")
+  ./bin/extract-"$x" "$REPO" lean/VaxisModel/Gen
+done
 cp "$REPO/go.sum" harness/go.sum
-(cd harness && go build -tags verif -o ../bin/vxh ./cmd/vxh)
-(cd lean && lake build VaxisModel vxdrv)
+for d in harness/cmd/*/; do
+  x=$(basename "$d")
+  (cd harness && go build -tags verif -o ../bin/vxh-"$x" ./cmd/"$x")
+done
+exes=$(sed -n 's/^name = "\(vxdrv_[^"]*\)"/\1/p' lean/lakefile.toml)
+(cd lean && lake build VaxisModel $exes)
 echo setup-ok
